@@ -48,7 +48,7 @@ pub fn bin_sequences(wsize: usize, msize: usize, in_path: &str, out_path: &str, 
                         #[cfg(feature = "verif_hooks")]
                         ktio::verif::emit("min.after_take", &[record.n as u64]);
                         let mgen = if wsize == 0 {
-                            MinimiserGenerator::new(&record.seq, record.seq.len(), msize)
+                            MinimiserGenerator::new(&record.seq, record.seq.len().max(msize), msize)
                         } else {
                             MinimiserGenerator::new(&record.seq, wsize, msize)
                         };
@@ -133,7 +133,7 @@ pub fn seq_to_min(wsize: usize, msize: usize, in_path: &str, out_path: &str, thr
                         #[cfg(feature = "verif_hooks")]
                         ktio::verif::emit("min.after_take", &[record.n as u64]);
                         let mgen = if wsize == 0 {
-                            MinimiserGenerator::new(&record.seq, record.seq.len(), msize)
+                            MinimiserGenerator::new(&record.seq, record.seq.len().max(msize), msize)
                         } else {
                             MinimiserGenerator::new(&record.seq, wsize, msize)
                         };
